@@ -127,6 +127,35 @@ def _check_logic(task):
                         viol('model-raised', f'reading the model off the open branch raised {type(e).__name__}: {e}')
                 if out['sample'] is None and k == 2:
                     out['sample'] = dict(logic=name, literals=label, closed=closed, satisfying_values=str(sat_vals))
+    if modal:
+        # the same literal at eight worlds, then a second literal at the last world (added last): closure must not depend on
+        # how many nodes carry the sentence elsewhere
+        for cname_, s in _carriers(L, G)[:2]:
+            for c1, c2 in itertools.product(cons, repeat=2):
+                out['evals'] += 1
+                out['distinct'] += 1
+                _verif.reset(0)
+                tab = Tableau(L)
+                b = tab.branch()
+                for w in range(8):
+                    b.append(sdwnode(s if c1[0] == 's' else ~s, c1[1], w))
+                b.append(sdwnode(s if c2[0] == 's' else ~s, c2[1], 7))
+                label = f"{cname_}|{cname(c1)}@0..7,{cname(c2)}@7"
+                try:
+                    tab.build()
+                except Exception as e:
+                    out['viol'].append(dict(sig=f'{name}|{label}|raised', what=f'{name}: literals [{label}]: build raised {type(e).__name__}: {e}', replay=dict(logic=name, tier=tier)))
+                    continue
+                closed = all(br.closed for br in tab)
+                satisfiable = any(ok_value(v, c1) and ok_value(v, c2) for v in base.values) and any(ok_value(v, c1) for v in base.values)
+                if closed:
+                    out['closed'] += 1
+                else:
+                    out['open'] += 1
+                if closed != (not satisfiable):
+                    out['viol'].append(dict(sig=f'{name}|{label}|{"closed-but-satisfiable" if closed else "open-but-unsatisfiable"}'.replace(' ', ''),
+                                            what=f'{name}: literals [{label}]: branch is {"closed" if closed else "open"} but the literals are {"" if satisfiable else "un"}satisfiable',
+                                            replay=dict(logic=name, tier=tier)))
     if refL.identity:
         a, b2 = G.Constant(0, 0), G.Constant(1, 0)
         lits = [('a=a', G.Predicated(G.Predicate.Identity, (a, a)), False),
